@@ -142,6 +142,66 @@ func (d *storeDebugger) Log(_ *ast.LogStatement, s string) {
 	d.logs = append(d.logs, s)
 }
 
+// storeProbeVCL is a SECOND service, run on a FRESH interpreter of the same process after the request's
+// program: the defaults of a local of every declarable type (value.Create), of a few ctx variables, a header and
+// re.group.0, and what an unassigned REGEX local matches.  Whatever the program did, this must look exactly as it
+// looks in a process that has run nothing: anything else is process-global state reachable from evaluation.
+const storeProbeVCL = `backend P_b { .host = "127.0.0.9"; .port = "80"; }
+acl P_a { "10.9.0.0"/16; }
+table p_rt REGEX { "a": "^a+", }
+sub p_id(REGEX var.r, BACKEND var.k, STRING var.s) STRING {
+  return var.s;
+}
+sub t_main {
+  declare local var.pi INTEGER;
+  declare local var.pf FLOAT;
+  declare local var.ps STRING;
+  declare local var.pb BOOL;
+  declare local var.pr RTIME;
+  declare local var.pt TIME;
+  declare local var.pp IP;
+  declare local var.pk BACKEND;
+  declare local var.pa ACL;
+  declare local var.px REGEX;
+  declare local var.py REGEX;
+  declare local var.m1 BOOL;
+  declare local var.m2 BOOL;
+  set var.ps = "aaa";
+  set var.m1 = (var.ps ~ var.px);
+  set var.py = table.lookup_regex(p_rt, "nokey");
+  set var.m2 = (var.ps ~ var.py);
+  set var.ps = p_id(var.px, var.pk, var.ps);
+  log "probe";
+}
+`
+
+var storeProbePool = []string{"req.max_stale_if_error", "req.max_stale_while_revalidate", "req.http.ha", "re.group.0", "re.group.1", "client.identity", "req.backend"}
+
+func storeProbe() string {
+	i := interpreter.New(icontext.WithResolver(resolver.NewStaticResolver("probe.vcl", storeProbeVCL)))
+	d := &storeDebugger{i: i, pool: storeProbePool, frames: map[uintptr]int{}}
+	req, err := ihttp.NewRequest(ghttp.MethodGet, "http://localhost/", ghttp.NoBody)
+	if err != nil {
+		return "(probe initerr)"
+	}
+	req.RemoteAddr = "192.0.2.1:11111"
+	if err := i.TestProcessInit(req); err != nil {
+		return "(probe initerr " + hx(strings.SplitN(err.Error(), "\n", 2)[0]) + ")"
+	}
+	i.SetScope(icontext.RecvScope)
+	sub, ok := i.VerifStoreContext().Subroutines["t_main"]
+	if !ok {
+		return "(probe nomain)"
+	}
+	_, _, _, rerr := i.ProcessBlockStatement(sub.Block.Statements, interpreter.DebugPass, false)
+	status := "ok"
+	if rerr != nil {
+		status = "err " + hx(strings.SplitN(rerr.Error(), "\n", 2)[0])
+	}
+	d.snap("probe " + status)
+	return d.out[len(d.out)-1]
+}
+
 func storeSnapshot(args string) string {
 	f := strings.Fields(args)
 	if len(f) != 3 && len(f) != 4 {
@@ -192,5 +252,9 @@ func storeSnapshot(args string) string {
 	if rerr != nil {
 		msg = " (msg " + hx(strings.SplitN(rerr.Error(), "\n", 2)[0]) + ")"
 	}
-	return "ok " + strings.Join(d.out, " ") + " (logs " + strings.Join(logs, " ") + ")" + msg
+	probe := ""
+	if !d.slim {
+		probe = " " + storeProbe()
+	}
+	return "ok " + strings.Join(d.out, " ") + " (logs " + strings.Join(logs, " ") + ")" + msg + probe
 }
